@@ -51,6 +51,8 @@ pub struct RqCfg {
 thread_local! {
     /// the request carries the headers of an ordinary form / API post (credentials, cookie, content description)
     pub static LOGIN_HEADERS: std::cell::Cell<bool> = std::cell::Cell::new(false);
+    /// the request carries header names with more than one value (accept, cookie, via on two lines each)
+    pub static REPEATED_HEADERS: std::cell::Cell<bool> = std::cell::Cell::new(false);
 }
 
 impl RqCfg {
@@ -87,6 +89,9 @@ impl RqCfg {
             "chunked" => b = b.header("transfer-encoding", "chunked"),
             f if f.starts_with("cl:") => b = b.header("content-length", &f[3..]),
             _ => {}
+        }
+        if REPEATED_HEADERS.with(|x| x.get()) {
+            b = b.header("accept", "text/html").header("cookie", "a=1").header("accept", "application/json;q=0.9").header("via", "1.1 p1").header("cookie", "b=2").header("via", "1.1 p2");
         }
         b = b.header("x-note", "verif");
         if LOGIN_HEADERS.with(|x| x.get()) {
@@ -135,6 +140,8 @@ impl FinCfg {
             "close" => h.push_str("Connection: close\r\n"),
             "keepalive" => h.push_str("Connection: keep-alive\r\n"),
             "two" => h.push_str("Connection: keep-alive\r\nConnection: close\r\n"),
+            // fields that merely look like it: they are not "Connection: close"
+            "proxyclose" => h.push_str("Proxy-Connection: close\r\nX-Connection: close\r\nKeep-Alive: close\r\n"),
             _ => {}
         }
         h.push_str("\r\n");
@@ -208,6 +215,12 @@ impl EarlyMsg {
             "nothing" => 0,
             "inStatusLine" => 1 + v % (self.sl - 1),
             "afterStatusLine" => (self.sl + if !self.is_refusal() || self.first_field_end == self.sl { v % 2 } else { 0 }).min(b.len() - 1),
+            "bare100" if v % 5 == 3 => {
+                // the interim response with the first bytes of what follows already behind it ("consumed exactly")
+                let mut w = b.clone();
+                w.extend(&b"HTTP/1.1 200 OK\r\nContent-Length: 0\r\n\r\n"[..(3 + v % 35)]);
+                return w;
+            }
             "bare100" | "bareOther" | "otherComplete" => b.len(),
             "otherInFields" => self.sl + 1 + v % (self.first_field_end - self.sl - 1),
             "otherFieldLine" => self.first_field_end + v % (b.len() - self.first_field_end),
@@ -603,10 +616,15 @@ impl Sim {
     }
 
     pub fn op_read(&mut self, t: &mut Tracer, all: bool) {
+        let total = self.body.len();
+        let avail = if all || self.rstep >= 1 { total } else { (self.bpos + (total - self.bpos) / 3).max(self.bpos + 1).min(total) };
+        self.op_read_to(t, avail);
+    }
+
+    /// one read() with the bytes of the response body that have arrived so far (up to `avail`)
+    pub fn op_read_to(&mut self, t: &mut Tracer, avail: usize) {
         self.calls += 1;
         if let FlowBox::RecvBody(f) = &mut self.fb {
-            let total = self.body.len();
-            let avail = if all || self.rstep >= 1 { total } else { (self.bpos + (total - self.bpos) / 3).max(self.bpos + 1).min(total) };
             self.rstep += 1;
             let mut out = vec![0u8; 8192];
             let w = &self.body[self.bpos.min(avail)..avail];
@@ -634,18 +652,37 @@ impl Sim {
                 }
             }
         }
-        for _ in 0..200 {
-            let before = self.bpos;
-            self.op_read(t, true);
-            let ready = match &self.fb {
-                FlowBox::RecvBody(f) => guarded(|| f.can_proceed()).unwrap_or(true),
-                _ => true,
-            };
-            if ready && (self.bpos == before || self.bpos >= self.body.len().saturating_sub(17)) {
-                break;
-            }
-            if self.bpos == before {
-                break;
+        // how the end of the message arrives: in one piece, or cut somewhere inside its last bytes (segmentation; a
+        // server that computes trailers late) — the caller reads what has arrived and asks again
+        let total = self.body.len();
+        let msg_end = total.saturating_sub(17);
+        let h = (self.v.wrapping_mul(40503) >> 5) as usize;
+        let mut arrivals: Vec<usize> = match h % 4 {
+            0 => vec![],
+            1 => (msg_end.saturating_sub(10)..msg_end).collect(),
+            2 => vec![msg_end.saturating_sub(2)],
+            _ => vec![msg_end.saturating_sub(3 + (h / 4) % 8)],
+        };
+        arrivals.retain(|a| *a > self.bpos && *a < total);
+        if !arrivals.is_empty() {
+            t.class("drain:end-of-message-arrives-in-pieces");
+        }
+        arrivals.push(total);
+        for avail in arrivals {
+            for _ in 0..200 {
+                let before = self.bpos;
+                self.op_read_to(t, avail);
+                let ready = match &self.fb {
+                    FlowBox::RecvBody(f) => guarded(|| f.can_proceed()).unwrap_or(true),
+                    _ => true,
+                };
+                if ready {
+                    // the canonical caller stops reading here
+                    return;
+                }
+                if self.bpos == before {
+                    break;
+                }
             }
         }
     }
